@@ -35,6 +35,8 @@ import (
 	"github.com/aergoio/aergo/v2/contract/system"
 	"github.com/aergoio/aergo/v2/mempool"
 	"github.com/aergoio/aergo/v2/pkg/component"
+	"github.com/aergoio/aergo/v2/state"
+	"github.com/aergoio/aergo/v2/state/statedb"
 	"github.com/aergoio/aergo/v2/types"
 	"github.com/aergoio/aergo/v2/types/message"
 	lx "github.com/aergoio/aergo/v2/verif_h/ledgerx"
@@ -648,7 +650,64 @@ func (w *world) execute(c Case, cmd string, tx *types.Tx) {
 	tracef("delivered: accepted by the validator")
 	ctx.Count("delivered", 1)
 	w.probe(c, cmd)
+	w.later(c, cmd, tx.GetBody().GetAccount())
 	w.reset()
+}
+
+// later: the records an admitted governance transaction left behind are read again by the
+// sender's next governance transactions, which the lock periods push a day of blocks (86400) into
+// the future. The chain cannot be advanced that far per case, so the sender's next vote / DAO vote /
+// unstake are executed directly by the real system-contract executor (what chain.executeTx calls
+// for a GOVERNANCE transaction to aergo.system) on the state after the case's block, at a block
+// number one lock period later, each on its own scratch block state: none may panic.
+func (w *world) later(c Case, cmd string, account []byte) {
+	if !strings.HasPrefix(cmd, "v1") || len(account) != types.AddressLength {
+		return
+	}
+	n := w.p.Node
+	best := n.Best()
+	no := best.BlockNo() + 1 + system.VotingDelay
+	for _, f := range []struct{ name, payload string }{
+		{"v1voteBP", `{"Name":"v1voteBP","Args":["` + types.IDB58Encode(nk.BPIDs[0]) + `"]}`},
+		{"v1voteDAO", `{"Name":"v1voteDAO","Args":["GASPRICE","60000000000"]}`},
+		{"v1unstake", `{"Name":"v1unstake"}`},
+	} {
+		w.ctx.Count("later_executions", 1)
+		var err error
+		pi := guard(func() {
+			bs := state.NewBlockState(n.CS.SDB().OpenNewStateDB(best.GetHeader().GetBlocksRootHash()))
+			sender, e := state.GetAccountState(account, bs.StateDB)
+			if e != nil {
+				panic(e)
+			}
+			receiver, e := state.GetAccountState([]byte(types.AergoSystem), bs.StateDB)
+			if e != nil {
+				panic(e)
+			}
+			scs, e := statedb.OpenContractState(receiver.IDNoPadding(), receiver.State(), bs.StateDB)
+			if e != nil {
+				panic(e)
+			}
+			amount := []byte{}
+			if f.name == "v1unstake" {
+				if st, e := system.GetStaking(scs, account); e == nil && st != nil {
+					amount = st.GetAmount()
+				}
+			}
+			tb := &types.TxBody{Nonce: sender.Nonce() + 1, Account: account, Recipient: []byte(types.AergoSystem), Amount: amount,
+				Payload: []byte(f.payload), Type: types.TxType_GOVERNANCE, ChainIdHash: n.ChainIDHashFor(best.BlockNo() + 1)}
+			_, err = system.ExecuteSystemTx(scs, tb, sender, receiver, &types.BlockHeaderInfo{No: no, ForkVersion: n.Cfg.Hardfork.Version(no)})
+		})
+		w.dirty = true
+		if pi != nil {
+			w.ctx.Count("panics_later", 1)
+			w.violation(sigOf(pi, cmd), true, "execution of the sender's next "+f.name+" one lock period after the block with the case's transaction", c, pi.String())
+			return
+		}
+		if err == nil {
+			w.ctx.Count("later_accepted", 1)
+		}
+	}
 }
 
 // probe: after the block is connected, the admission entry points must still be
@@ -775,7 +834,7 @@ func main() {
 	xplor.Main(xplor.Check{
 		ID:    "C14",
 		Level: "exploration",
-		Rule:  "every transaction body of a bounded grammar is run through Validate, ValidateWithSenderState, mempool.verifyTx and mempool.put (each under its own recover; unsigned, garbage-signed and properly signed), and every transaction the pool admits through the real producer path (one block per transaction) and - once per outcome class per worker, see NOTES - the real validator path followed by admission probes on the resulting state. Grammar: grid 'gov' = GOVERNANCE transactions whose payload is {Name,Args} with Name in the 15 governance command names of the code + 1 unknown and Args = every list of length <= 2 (thorough 3) over 12 value shapes (valid value for the slot, non-address string, registered name, unregistered name, empty string, huge numeric string, number, huge number, null, bool, {}, []) when sent to the command's own contract, <= 1 (thorough 2) to the other two governance contracts, <= 1 to 4 non-governance recipients, plus 6 malformed payloads per command and 17 command-independent ones (not JSON, wrong JSON types, duplicate / lower-case keys, 1e999, 12000-deep nesting, > TxMaxSize), x 6 sender states (staked+voted, name owner, funded, staked, empty, sender given by name) x the amount the command needs and 0; grid 'field' = 12 account classes (byte lengths 0,1,12,33,34,64, nil, names, special account, non-key bytes) x 14 recipient classes x 9 types (8 + invalid) x 7 payloads at amount 1 / standard price, and every amount class x every gas price class (lengths 0,1,12,33 padded,33,34,64) + nonce-low / nonce-gap / foreign chain id / wrong hash for a subset of accounts and recipients; x networks {hardfork version 0,2,3,4,5} x {public, private} (quick: 6 of the 10 combinations covering every version and both kinds) x pre-state warm (thorough: + genesis with the quick grammar). evaluations = bodies; distinct_nontrivial = distinct (net, pre-state, body) that pass Validate or are governance transactions to a governance contract (their payload reaches a JSON/argument parser); a body rejected by a field check before any payload parsing is trivial",
+		Rule:  "every transaction body of a bounded grammar is run through Validate, ValidateWithSenderState, mempool.verifyTx and mempool.put (each under its own recover; unsigned, garbage-signed and properly signed), and every transaction the pool admits through the real producer path (one block per transaction) and - once per outcome class per worker, see NOTES - the real validator path followed by admission probes on the resulting state and, for v1 commands, by the direct execution (system.ExecuteSystemTx on a scratch block state) of the sender's next BP vote, DAO vote and unstake one lock period (86400 blocks) later. Grammar: grid 'gov' = GOVERNANCE transactions whose payload is {Name,Args} with Name in the 15 governance command names of the code + 1 unknown and Args = every list of length <= 2 (thorough 3) over 13 value shapes (valid value for the slot, a well-formed peer id of another length (34-byte sha2-256 multihash), non-address string, registered name, unregistered name, empty string, huge numeric string, number, huge number, null, bool, {}, []) when sent to the command's own contract, <= 1 (thorough 2) to the other two governance contracts, <= 1 to 4 non-governance recipients, plus 6 malformed payloads per command and 17 command-independent ones (not JSON, wrong JSON types, duplicate / lower-case keys, 1e999, 12000-deep nesting, > TxMaxSize), x 6 sender states (staked+voted, name owner, funded, staked, empty, sender given by name) x the amount the command needs and 0; grid 'field' = 12 account classes (byte lengths 0,1,12,33,34,64, nil, names, special account, non-key bytes) x 14 recipient classes x 9 types (8 + invalid) x 7 payloads at amount 1 / standard price, and every amount class x every gas price class (lengths 0,1,12,33 padded,33,34,64) + nonce-low / nonce-gap / foreign chain id / wrong hash for a subset of accounts and recipients; x networks {hardfork version 0,2,3,4,5} x {public, private} (quick: 6 of the 10 combinations covering every version and both kinds) x pre-state warm (thorough: + genesis with the quick grammar). evaluations = bodies; distinct_nontrivial = distinct (net, pre-state, body) that pass Validate or are governance transactions to a governance contract (their payload reaches a JSON/argument parser); a body rejected by a field check before any payload parsing is trivial",
 		Assumptions: []string{
 			"contract VM = pure-Go stub (overlay/contract/vm_stub_verif.go): nothing is concluded about Lua execution of CALL/DEPLOY/FEEDELEGATION payloads, only about the admission and dispatch code around it",
 			"the pool is driven synchronously through verifyTx/put (what TxVerifier.Receive calls) on a MemPool built by NewMemPoolService on the real ChainService; the actor system is not started; CheckFeeDelegation requests are answered by the body of the chain worker's handler",
